@@ -26,4 +26,18 @@ PROPS = {
     },
 }
 
+PROPS["C11"] = {
+    "imports": "Base.Cfg Model.Flags Model.Args Model.FlagsSer Gen.Cfg{TAG}",
+    "prelude": "Definition cfg := Cfg{TAG}.cfg.",
+    "level_text": "Theorems for every well-formed flag table (any interpreter version): word -> names -> word is the identity, names -> word -> names is the identity, "
+                  "a word with a bit outside the table makes to_flags_data raise; the flag functions are tied to the code by function-level correspondence, "
+                  "the tables are regenerated from the interpreters on every run; header reproduction is decided by the oracle on altered code objects",
+    "level_note": "see coverage.trusted_base; enum._decompose is transcribed (Model/Flags.v decompose) and exercised against the real one by the correspondence",
+    "trusted_base": COMMON_TB + ["transcription of enum._decompose (CPython 3.7-3.10) in Model/Flags.v", "harness/gen_cfg.py (flag tables read from the interpreters)"],
+    "assumptions": ["co_flags is a non-negative int", "flag names in _CodeFlag are distinct (checked: cfg_wf by vm_compute for each generated table)"],
+    "rule": "flag words: all subsets of size <=2 of the known flags plus a seeded sample of the 2^18 subsets (thorough: all of them), every unknown bit below 2^40 alone and mixed; "
+            "header alterations of base code objects through code.replace / CodeType; distinct = distinct flag words / distinct altered headers",
+    "replay_hint": "from code_data._flags_data import to_flags_data, from_flags_data; to_flags_data(data['flags'])",
+}
+
 NOT_CLAIMED = {}
